@@ -885,7 +885,7 @@ class AffInterp:
         ci = self.p.resolve_class_expr(node, mod)
         if ci is not None:
             return ClassRef(ci)
-        if node.id in ("hasattr", "getattr", "len", "range", "enumerate", "zip", "min", "max", "print", "isinstance", "abs"):
+        if node.id in ("hasattr", "getattr", "len", "range", "enumerate", "zip", "min", "max", "print", "isinstance", "abs", "float", "int"):
             return NpRef("builtin." + node.id)
         if node.id in mod.imports or node.id in mod.from_imports:
             return Opaque(node.id)
@@ -912,7 +912,7 @@ class AffInterp:
                 return v
             f = self.p.resolve(o.cls, a)
             if f is not None:
-                return BoundMethod(o, f)
+                return f if f.is_static else BoundMethod(o, f)
             if a == "__class__":
                 return Opaque("class")
             raise AnalysisError("%s:%d self.%s read before assignment" % (func.qualname, node.lineno, a))
@@ -962,6 +962,8 @@ class AffInterp:
                 return o.vals[idx]
             except IndexError:
                 raise AnalysisError("%s:%d tableau index %d out of range" % (func.qualname, node.lineno, idx))
+        if isinstance(o, CArr) and isinstance(idx, slice) and all(x is None or isinstance(x, int) for x in (idx.start, idx.stop, idx.step)):
+            return CArr(o.vals[idx])
         if isinstance(o, Packed):
             return o.slots[self.slot(idx, func, node)].copy()
         if isinstance(o, dict):
@@ -1188,6 +1190,10 @@ class AffInterp:
                 return None
             if base == "abs":
                 return self.builtin("np.abs", args, kwargs, node, func)
+            if base == "float" and len(args) == 1 and isinstance(args[0], (int, Fraction, S)):
+                return Fraction(args[0]) if isinstance(args[0], int) else args[0]       # exact in real arithmetic
+            if base == "int" and len(args) == 1 and isinstance(args[0], int):
+                return args[0]
             raise AnalysisError("%s:%d unsupported builtin %s" % (func.qualname, ln, base))
         if base == "roll" and args and isinstance(args[0], tuple) and args[0] and args[0][0] == "jacview":
             return ("rolled", args[0])
